@@ -642,6 +642,11 @@ fn expand_brace_range(tokens: &mut types::Tokens) {
 
         // safe to unwrap here, since the `is_match` above already validated
         let caps = re.captures(token).unwrap();
+        // keep the text around the braces, e.g. `a{1..3}b`
+        let (prefix, suffix) = match caps.get(0) {
+            Some(m) => (&token[..m.start()], &token[m.end()..]),
+            None => ("", ""),
+        };
 
         let start = match caps[1].to_string().parse::<i32>() {
             Ok(x) => x,
@@ -679,7 +684,7 @@ fn expand_brace_range(tokens: &mut types::Tokens) {
         let mut n = start;
         if start > end {
             while n >= end {
-                result.push(format!("{}", n));
+                result.push(format!("{}{}{}", prefix, n, suffix));
                 n = match n.checked_sub(incr) {
                     Some(x) => x,
                     None => break,
@@ -687,7 +692,7 @@ fn expand_brace_range(tokens: &mut types::Tokens) {
             }
         } else {
             while n <= end {
-                result.push(format!("{}", n));
+                result.push(format!("{}{}{}", prefix, n, suffix));
                 n = match n.checked_add(incr) {
                     Some(x) => x,
                     None => break,
